@@ -294,6 +294,9 @@ func (b *Block) readFrom(r io.Reader) error {
 	// The spec says T[] is {itf8, element...}.
 	// This is not true for byte[] according to
 	// the EOF block.
+	if b.compressedSize < 0 {
+		return fmt.Errorf("cram: invalid block size: %d", b.compressedSize)
+	}
 	b.blockData = make([]byte, b.compressedSize)
 	_, err := io.ReadFull(&er, b.blockData)
 	if err != nil {
